@@ -121,18 +121,27 @@ def leb_info(repo):
         signed = vt.startswith("I")
         sign_mask = 0
         guard_bits = 0
+        form = ""
         if signed:
-            sg = _need(re.search(r"if \(\(shift < 8 \* sizeof\((I32|I64)\)\) && \(byte & (0x[0-9A-Fa-f]+)\)\) \{ value \|= -\(\((I32|I64)\) 1 << shift\); \}", norm),
+            sg = _need(re.search(r"if \(\(shift < 8 \* sizeof\((I32|I64)\)\) && \(byte & (0x[0-9A-Fa-f]+)\)\) \{ value \|= (.*?); \}", norm),
                        fn + " sign extension shape")
-            if sg.group(1) != vt or sg.group(3) != vt:
+            if sg.group(1) != vt:
                 raise ExtractFail(f"EXTRACT-FAIL leb128.h: {fn} sign extension type")
+            expr = sg.group(3)
+            ut = "U" + vt[1:]
+            if expr == f"-(({vt}) 1 << shift)":
+                form = "negOneShifted"        # -((T)1 << shift): signed shift and negation
+            elif expr == f"({vt}) (~({ut}) 0 << shift)":
+                form = "unsignedMask"         # (T)(~(UT)0 << shift): unsigned shift, implementation-defined conversion
+            else:
+                raise ExtractFail(f"EXTRACT-FAIL leb128.h: {fn} sign extension expression `{expr}` not recognised")
             sign_mask = _cint(sg.group(2))
             guard_bits = width
         elif "value |= -" in norm:
             raise ExtractFail(f"EXTRACT-FAIL leb128.h: {fn} unexpectedly sign-extends")
         _need(re.search(r"\*result = value; return count; \}$", norm), fn + " epilogue")
         decs.append(dict(name=fn, width=width, signed=signed, max=out[bound], step=int(lp.group(3)),
-                         payload=_cint(pay.group(2)), cont=_cint(lp.group(4)), sign=sign_mask, guard=guard_bits))
+                         payload=_cint(pay.group(2)), cont=_cint(lp.group(4)), sign=sign_mask, guard=guard_bits, form=form))
     out["decoders"] = decs
     return out
 
@@ -185,12 +194,30 @@ def reader_info(repo):
         raise ExtractFail("EXTRACT-FAIL reader.c: wasmReadLimits switch")
     out["limitkinds"] = kinds
     body = re.sub(r"\s+", " ", _func_body(rd, "wasmReadMemoryType", "reader.c"))
-    _need(re.search(r"if \(\*max == 0\) \{ \*max = UINT32_MAX / WASM_PAGE_SIZE; \}", body), "memory default max")
     page = _cint(_need(re.search(r"#define\s+WASM_PAGE_SIZE\s+(\d+)", _read(repo, "w2c2_base.h")), "WASM_PAGE_SIZE").group(1))
     out["memdefault"] = 0xFFFFFFFF // page
+    if re.search(r"if \(\*max == 0\) \{ \*max = UINT32_MAX / WASM_PAGE_SIZE; \}", body):
+        out["memrule"] = "maxIsZero"
+    elif re.search(r"if \(!hasMax \|\| \*max > UINT32_MAX / WASM_PAGE_SIZE\) \{ \*max = UINT32_MAX / WASM_PAGE_SIZE; \}", body):
+        out["memrule"] = "noMaxOrTooLarge"
+    else:
+        raise ExtractFail("EXTRACT-FAIL reader.c: wasmReadMemoryType default-maximum rule not recognised")
     body = re.sub(r"\s+", " ", _func_body(rd, "wasmReadTableType", "reader.c"))
-    _need(re.search(r"if \(\*max == 0\) \{ \*max = UINT32_MAX; \}", body), "table default max")
     out["tabledefault"] = 0xFFFFFFFF
+    if re.search(r"if \(\*max == 0\) \{ \*max = UINT32_MAX; \}", body):
+        out["tablerule"] = "maxIsZero"
+    elif re.search(r"if \(!hasMax\) \{ \*max = UINT32_MAX; \}", body):
+        out["tablerule"] = "noMax"
+    else:
+        raise ExtractFail("EXTRACT-FAIL reader.c: wasmReadTableType default-maximum rule not recognised")
+    # name section: are NULL names guarded in the comparator and in the duplicate scan?
+    cmpb = re.sub(r"\s+", " ", _func_body(rd, "wasmFunctionNameEntryCompareNames", "reader.c"))
+    dupb = re.sub(r"\s+", " ", _func_body(rd, "wasmFunctionNamesRemoveDuplicates", "reader.c"))
+    g1 = bool(re.search(r"if \(entryA->name == NULL \|\| entryB->name == NULL\) \{ return \(entryA->name != NULL\) - \(entryB->name != NULL\); \}", cmpb))
+    g2 = bool(re.search(r"if \(previous\.name == NULL \|\| current\.name == NULL\) \{ continue; \}", dupb))
+    if "strcmp(entryA->name, entryB->name)" not in cmpb or "strcmp(previous.name, current.name) == 0" not in dupb:
+        raise ExtractFail("EXTRACT-FAIL reader.c: name de-duplication shape not recognised")
+    out["namesnullguard"] = g1 and g2
     # data segment kinds
     body = re.sub(r"\s+", " ", _func_body(rd, "wasmReadDataSegment", "reader.c"))
     dk = []
@@ -227,6 +254,7 @@ def reader_info(repo):
 
 
 CTYPE_BITS = {"U32": (32, False), "I32": (32, True), "U64": (64, False), "I64": (64, True), "char": (8, True),
+              "unsigned char": (8, False), "signed char": (8, True),
               "F32": (32, None), "F64": (64, None)}
 
 
@@ -234,8 +262,10 @@ def sprintf_info(repo):
     sb = _strip_comments(_read(repo, "stringbuilder.c"))
     rows = []
     for m in re.finditer(r"bool\s+(\w+)\s*\(\s*StringBuilder\*\s*\w+\s*,\s*(?:const\s+)?(\w+)\s+value\s*\)\s*\{\s*char\s+buffer\[(\d+)\];\s*"
-                         r"const int length = sprintf\(buffer,\s*\"([^\"]*)\",\s*value\);", sb):
+                         r"const int length = sprintf\(buffer,\s*\"([^\"]*)\",\s*(?:\(([\w ]+)\)\s*)?value\);", sb):
         fn, cty, size, fmt = m.group(1), m.group(2), int(m.group(3)), m.group(4)
+        if m.group(5):          # the argument is cast before it is passed: that is the type printf sees
+            cty = m.group(5).strip()
         if cty not in CTYPE_BITS:
             raise ExtractFail(f"EXTRACT-FAIL stringbuilder.c: {fn}: unknown argument type {cty}")
         rows.append((fn, size, fmt, cty))
@@ -270,13 +300,14 @@ def generate(repo):
     A(f"def int64LEB128MaxByteCount : Nat := {leb['int64LEB128MaxByteCount']}")
     A("")
     A("/-- One LEB128 decoder of leb128.h: width of `value`/`shift`, signedness of `value`, loop bound, shift step,")
-    A("    payload mask, continuation mask, sign mask and the `shift < 8*sizeof(T)` guard width (0 = no sign extension). -/")
+    A("    payload mask, continuation mask, sign mask, the `shift < 8*sizeof(T)` guard width (0 = no sign extension) and the")
+    A("    form of the sign-extension expression: `negOneShifted` = `-((T)1 << shift)`, `unsignedMask` = `(T)(~(UT)0 << shift)`. -/")
     A("structure LebDecoder where")
-    A("  name : String\n  width : Nat\n  signed : Bool\n  maxBytes : Nat\n  step : Nat\n  payloadMask : Nat\n  contMask : Nat\n  signMask : Nat\n  guardBits : Nat")
+    A("  name : String\n  width : Nat\n  signed : Bool\n  maxBytes : Nat\n  step : Nat\n  payloadMask : Nat\n  contMask : Nat\n  signMask : Nat\n  guardBits : Nat\n  signExtForm : String")
     A("  deriving Repr, DecidableEq")
     for d in leb["decoders"]:
         A(f"def {d['name']} : LebDecoder := {{ name := {_lean_str(d['name'])}, width := {d['width']}, signed := {str(d['signed']).lower()}, "
-          f"maxBytes := {d['max']}, step := {d['step']}, payloadMask := {d['payload']}, contMask := {d['cont']}, signMask := {d['sign']}, guardBits := {d['guard']} }}")
+          f"maxBytes := {d['max']}, step := {d['step']}, payloadMask := {d['payload']}, contMask := {d['cont']}, signMask := {d['sign']}, guardBits := {d['guard']}, signExtForm := {_lean_str(d['form'])} }}")
     A("")
     A("/-- `enum WasmSectionID` (section.h): (name, value) -/")
     A("def sectionIDs : List (String × Nat) := [" + ", ".join(f"({_lean_str(n)}, {v})" for n, v in rd["sections"]) + "]")
@@ -303,6 +334,11 @@ def generate(repo):
     A("def limitKinds : List (Nat × Bool × Bool) := [" + ", ".join(f"({k}, {str(h).lower()}, {str(s).lower()})" for k, h, s in rd["limitkinds"]) + "]")
     A(f"/-- `UINT32_MAX / WASM_PAGE_SIZE` (wasmReadMemoryType) -/\ndef memoryDefaultMax : Nat := {rd['memdefault']}")
     A(f"/-- `UINT32_MAX` (wasmReadTableType) -/\ndef tableDefaultMax : Nat := {rd['tabledefault']}")
+    A("/-- when the default maximum replaces the decoded one: `maxIsZero` = `if (*max == 0)`; `noMaxOrTooLarge` = `if (!hasMax || *max > UINT32_MAX / WASM_PAGE_SIZE)`; `noMax` = `if (!hasMax)` -/")
+    A(f"def memoryMaxRule : String := {_lean_str(rd['memrule'])}")
+    A(f"def tableMaxRule : String := {_lean_str(rd['tablerule'])}")
+    A("/-- wasmFunctionNameEntryCompareNames / wasmFunctionNamesRemoveDuplicates skip NULL names -/")
+    A(f"def functionNamesNullGuard : Bool := {str(rd['namesnullguard']).lower()}")
     A("/-- `wasmReadDataSegment`: (kind, readMemoryIndex, readOffsetExpression, passive) -/")
     A("def dataKinds : List (Nat × Bool × Bool × Bool) := [" + ", ".join(
         f"({k}, {str(a).lower()}, {str(b).lower()}, {str(c).lower()})" for k, a, b, c in rd["datakinds"]) + "]")
